@@ -397,6 +397,12 @@ func (s *Store) EnableDB(ctx context.Context, path string) error {
 		return fmt.Errorf("open database: %w", err)
 	}
 
+	// The database may have been unregistered while it was being opened.
+	if s.FindDB(path) != db {
+		_ = db.Close(ctx)
+		return fmt.Errorf("database not found: %s", path)
+	}
+
 	return nil
 }
 
